@@ -2,9 +2,9 @@
 # Runs every seeded change against the quick check of its own property (and extra checks given per seed below);
 # writes /verif/seeded/<seed>/caught.txt. /repo must be clean and no background job may be using it.
 cd /verif
-declare -A EXTRA=( [C05-b]="C16" [C08-a]="C04 C05" [C08-b]="C12" [C10-b]="C20" [C11-a]="C12" [C12-a]="C11" [C13-a]="C04" [C13-b]="C01" [C19-b]="C04 C05" [C04-a]="C05 C13" [C03-b]="C19" [C04-b]="C14" [C01-b]="C07")
-for d in seeded/C*-[ab]; do
-  s=$(basename $d); own=${s%-*}
+declare -A EXTRA=( [C05-b]="C16" [C08-a]="C04 C05" [C08-b]="C12" [C10-b]="C20" [C11-a]="C12" [C12-a]="C11" [C13-a]="C04" [C13-b]="C01" [C19-b]="C04 C05" [C04-a]="C05 C13" [C03-b]="C19" [C04-b]="C14" [C01-b]="C07" [C01-a-r2]="C08" [C06-b-r2]="C04 C05 C14" [C05-b-r2]="C04" [C13-a-r2]="C12" [C14-b-r2]="C12" [C12-a-r2]="C13" [C08-a-r2]="C12" [C02-a-r2]="C04" [C07-b-r2]="C04" [C11-b-r2]="C03" [C03-a-r2]="C11" [C20-b-r2]="C05" [C13-b-r2]="C01" [C09-b-r2]="C04 C05" [C10-b-r2]="C04")
+for d in ${SEEDS:-seeded/C*-[ab] seeded/C*-[ab]-r2}; do
+  s=$(basename $d); own=${s%%-*}
   : > $d/caught.txt
   for id in $own ${EXTRA[$s]:-}; do
     out=$(./seedtest.sh $s $id 2>&1 | tail -1)
